@@ -3,12 +3,16 @@ from vcommon import *
 import scen_common
 
 PID = "C03"
-PROP_V = "Props/Properties_C03.v"
+PROP_V = ["Props/Properties_C03.v", "Props/Properties_C03b.v"]
 GEN_MODULES = ["Consts", "Sites"]
 REPLAY_HINT = "VRT_SEED=<seed> [env] _work/h/<scenario>: the runtime's vector-clock detector (harness/rt/vrt.c) reports the unordered pair"
-PARTIAL = ["C03_mutex_handoff is proved for the condition-free mutex model; hand-offs through cv / mu_wait / note / counter / once are covered by "
-           "the pinned memory orders (C03_publication_orders, C03_inventory_current) and by the vector-clock detector on sampled schedules, "
-           "not by an execution-level theorem; nsync's internal plain fields are checked by the detector only",
+PARTIAL = ["execution-level hand-off theorems exist for the mutex (C03_mutex_handoff over MuModel), the once word (C03_once_handoff over OnceModel: "
+           "the view at the end of the once-function is contained in the view at EVERY nsync_run_once* return) and the counter "
+           "(C03_counter_handoff(_any), C03_counter_wake_handoff over CounterModel, with the semaphore V->P edge resting on the checked "
+           "premise C03_sem_orders); the note flag and the signal->waiter edge are covered by order lemmas over the regenerated inventory "
+           "(C03_note_flag_orders: every access to `notified` in all 12 files is a release store or an acquire load; C03_publication_orders) "
+           "and by the vector-clock detector on sampled schedules, not by an execution-level theorem; nsync's internal plain fields are "
+           "checked by the detector only",
            "interleaving (SC) semantics for the atomics themselves: non-SC outcomes of relaxed atomics are not explored"]
 TRUSTED_BASE = ["harness/rt/vrt.c vector-clock detector: implements the release/acquire + release-sequence rules stated in Model/HbModel.v; "
                 "plain accesses are observed through compile-only -fsanitize=thread instrumentation of the nsync sources and scenarios"]
